@@ -2,6 +2,8 @@ package rules
 
 import (
 	"fmt"
+	"go/token"
+	"go/types"
 	"strings"
 
 	"golang.org/x/tools/go/ssa"
@@ -114,6 +116,10 @@ func runC16(c *an.Check) {
 			if _, ok := e.Events[evTimeout]; ok {
 				timer = " (it accepts Event_OnTimeout, but timers live in memory only and are not re-armed by Recover)"
 			}
+			if len(how) == 0 && ss.Unknown {
+				c.Unknown("C16.R1", t.key(s)+" silent-peer-exit", t.pos(c, s), "the action returns an event that could not be resolved; no restart-proof exit was recognised among the resolved ones")
+				continue
+			}
 			c.Decide(len(how) > 0, "C16.R1", t.key(s)+" silent-peer-exit", t.pos(c, s), strings.Join(how, "; "),
 				fmt.Sprintf("waiting state (action %v returns NoOp) has no exit that survives a restart when the peer stays silent%s: after a restart the swap waits here forever and keeps its channel locked", e.ActionNames(), timer))
 		}
@@ -125,9 +131,13 @@ func runC16(c *an.Check) {
 			seen := map[string]bool{s: true}
 			st := []string{s}
 			found := false
+			unresolved := false
 			for len(st) > 0 && !found {
 				x := st[len(st)-1]
 				st = st[:len(st)-1]
+				if t.Sum[x].Unknown {
+					unresolved = true
+				}
 				for nx := range exits[x] {
 					if t.T.States[nx].Terminal() {
 						found = true
@@ -138,11 +148,19 @@ func runC16(c *an.Check) {
 					}
 				}
 			}
+			if !found && unresolved {
+				c.Unknown("C16.R2", t.key(s)+" reaches-terminal", t.pos(c, s), "no terminal state reached over the resolved exits, but an action on the way returns an event that could not be resolved")
+				continue
+			}
 			c.Decide(found, "C16.R2", t.key(s)+" reaches-terminal", t.pos(c, s), "a terminal state is reachable without the peer", "no terminal state is reachable from here without a message from the peer")
 		}
 		// R3 terminal actions
 		for _, s := range t.terminals() {
 			ss := t.Sum[s]
+			if ss.Unknown && (len(ss.Events) == 0 || (len(ss.Events) == 1 && ss.Events[evDone])) {
+				c.Unknown("C16.R3", t.key(s)+" returns-done", t.pos(c, s), "a value returned by the terminal action could not be resolved to an event constant")
+				continue
+			}
 			c.Decide(len(ss.Events) == 1 && ss.Events[evDone] && !ss.Unknown, "C16.R3", t.key(s)+" returns-done", t.pos(c, s), "terminal action returns Event_Done", fmt.Sprintf("terminal action returns %v: SendEvent does not report done and the channel is never released", sortedKeys(ss.Events)))
 		}
 		// R4: persistable states are recoverable
@@ -153,8 +171,15 @@ func runC16(c *an.Check) {
 		}
 	}
 	if len(actionless) > 0 {
-		c.Decide(c16RecoverHandlesNilAction(w), "C16.R4", "(*SwapStateMachine).Recover action-less persisted state", w.Pos(ts[0].T.Pos), "Recover finishes a swap found in a state without action ("+strings.Join(actionless, ", ")+")",
-			"SendEvent persists the record before the first transition, so the action-less states "+strings.Join(actionless, ", ")+" can be on disk (crash while the first action runs); Recover returns ErrFsmConfig for them, RecoverSwaps only logs that, and the swap stays in activeSwaps (channel locked, HasActiveSwaps true) after every restart")
+		cons := "(*SwapStateMachine).Recover action-less persisted state"
+		switch c16RecoverHandlesNilAction(w) {
+		case 1:
+			c.OK("C16.R4", cons, w.Pos(ts[0].T.Pos), "Recover finishes a swap found in a state without action ("+strings.Join(actionless, ", ")+")")
+		case 0:
+			c.Unknown("C16.R4", cons, w.Pos(ts[0].T.Pos), "cannot interpret what Recover does with a swap found in a state without action ("+strings.Join(actionless, ", ")+"): no test of the current state / its action was recognised, or the branch returns a value of unknown origin")
+		default:
+			c.Bad("C16.R4", cons, w.Pos(ts[0].T.Pos), "SendEvent persists the record before the first transition, so the action-less states "+strings.Join(actionless, ", ")+" can be on disk (crash while the first action runs); Recover returns ErrFsmConfig for them, RecoverSwaps only logs that, and the swap stays in activeSwaps (channel locked, HasActiveSwaps true) after every restart")
+		}
 	}
 	c.AtLeast("C16.R1", "waiting states", nWait, 11)
 
@@ -166,81 +191,359 @@ func runC16(c *an.Check) {
 		c.Anchor("SendEvent / Recover / RemoveActiveSwap do not resolve")
 		return
 	}
+	// a release is a call of RemoveActiveSwap or of an in-module function whose
+	// synchronous call tree calls it
+	releases := func(call ssa.CallInstruction) bool {
+		if _, isGo := call.(*ssa.Go); isGo {
+			return false
+		}
+		g := call.Common().StaticCallee()
+		if g == nil {
+			return false
+		}
+		if g == rm {
+			return true
+		}
+		if !w.InModule(g) || g.Blocks == nil || g == se || g == rec {
+			return false
+		}
+		for _, ef := range w.Summary(g).Effects {
+			if ef.Info.Static == rm && !strings.HasPrefix(ef.Name, "go:") {
+				return true
+			}
+		}
+		return false
+	}
+	// sendLike: SendEvent, Recover and pure forwarders of their `done` result
+	// (the forwarder's callers are then the call sites to judge)
+	sendLike := map[*ssa.Function]bool{se: true, rec: true}
+	type c16Site struct {
+		fn   *ssa.Function
+		call *ssa.Call
+	}
+	var sites []c16Site
+	verdict := map[*ssa.Call]int{}
+	for round := 0; round < 3; round++ {
+		sites = sites[:0]
+		grew := false
+		for _, fn := range prodFuncs(w) {
+			if w.FnRel(fn) != "swap" || sendLike[fn] {
+				continue
+			}
+			for _, call := range an.Calls(fn) {
+				callee := call.Common().StaticCallee()
+				cv, ok := call.(*ssa.Call)
+				if callee == nil || !sendLike[callee] || !ok {
+					continue
+				}
+				v := c16DoneReleased(w, cv, releases)
+				if v != 1 && c16ForwardsDone(fn, cv) {
+					sendLike[fn] = true
+					grew = true
+					break
+				}
+				verdict[cv] = v
+				sites = append(sites, c16Site{fn, cv})
+			}
+		}
+		if !grew {
+			break
+		}
+	}
 	n := 0
-	for _, fn := range prodFuncs(w) {
-		if w.FnRel(fn) != "swap" {
+	for _, st := range sites {
+		fn, cv := st.fn, st.call
+		if sendLike[fn] {
 			continue
 		}
-		if fn == se || fn == rec {
-			continue
-		}
-		for _, call := range an.Calls(fn) {
-			callee := call.Common().StaticCallee()
-			if callee != se && callee != rec {
-				continue
-			}
-			cv, ok := call.(*ssa.Call)
-			if !ok {
-				continue
-			}
-			n++
-			cons := w.FuncName(fn) + " releases-when-done"
-			if evs := eventValues(w, call.Common().Args[min(1, len(call.Common().Args)-1)]); callee == se && len(evs) == 1 {
-				cons = w.FuncName(fn) + " " + evs[0] + " releases-when-done"
-			}
-			good := false
-			for _, dv := range an.ResultValues(cv, 0) {
-				tE, _ := an.BoolEdges(dv)
-				for _, e := range tE {
-					reach := an.ReachBlocks([]*ssa.BasicBlock{e.To()}, nil, nil)
-					for _, rc := range an.Calls(fn) {
-						if rc.Common().StaticCallee() == rm && reach[rc.Block()] {
-							good = true
+		callee := cv.Common().StaticCallee()
+		cons := w.FuncName(fn) + " releases-when-done"
+		pairs := 1
+		if args := cv.Common().Args; callee == se && len(args) >= 2 {
+			if par, isPar := args[1].(*ssa.Parameter); isPar {
+				// a shared delivery helper: one instance per (caller, constant event)
+				seenPair := map[string]bool{}
+				for _, g := range prodFuncs(w) {
+					for _, gc := range an.Calls(g) {
+						if gc.Common().StaticCallee() != fn {
+							continue
+						}
+						for k, p := range fn.Params {
+							if p == par && k < len(gc.Common().Args) {
+								for _, ev := range eventValues(w, gc.Common().Args[k]) {
+									seenPair[w.FuncName(g)+" "+ev] = true
+								}
+							}
 						}
 					}
 				}
+				if len(seenPair) > pairs {
+					pairs = len(seenPair)
+				}
+			} else if evs := eventValues(w, args[1]); len(evs) == 1 && evs[0] != "?" {
+				cons = w.FuncName(fn) + " " + evs[0] + " releases-when-done"
 			}
-			c.Decide(good, "C16.R3", cons, w.Pos(call.Pos()), "RemoveActiveSwap is called on the done edge", "the `done` result of SendEvent/Recover is not followed by RemoveActiveSwap: a finished swap keeps its channel locked")
+		}
+		n += pairs
+		switch verdict[cv] {
+		case 1:
+			c.OK("C16.R3", cons, w.Pos(cv.Pos()), "RemoveActiveSwap is called (directly or through a helper) on the done edge")
+		case 0:
+			c.Unknown("C16.R3", cons, w.Pos(cv.Pos()), "the `done` result of SendEvent/Recover is passed on (stored, returned or handed to a function that could not be followed): cannot decide whether the swap is released")
+		default:
+			c.Bad("C16.R3", cons, w.Pos(cv.Pos()), "the `done` result of SendEvent/Recover is not followed by RemoveActiveSwap: a finished swap keeps its channel locked")
 		}
 	}
-	c.AtLeast("C16.R3", "SendEvent/Recover call sites in the service", n, 14)
+	c.AtLeast("C16.R3", "SendEvent/Recover call sites (per handler and event) in the service", n, 14)
+}
+
+// c16DoneReleased judges the `done` result (#0) of a SendEvent/Recover-like
+// call: 1 a release call is reachable from an edge on which done is true,
+// -1 done is discarded or only tested without a release behind it, 0 done flows
+// somewhere that could not be followed.
+func c16DoneReleased(w *an.World, call *ssa.Call, releases func(ssa.CallInstruction) bool) int {
+	escapes := false
+	var judge func(v ssa.Value, depth int, seen map[ssa.Value]bool) bool
+	judge = func(v ssa.Value, depth int, seen map[ssa.Value]bool) bool {
+		if seen[v] {
+			return false
+		}
+		seen[v] = true
+		fn := v.Parent()
+		tE, _ := an.BoolEdges(v)
+		for _, e := range tE {
+			reach := an.ReachBlocks([]*ssa.BasicBlock{e.To()}, nil, nil)
+			for _, rc := range an.Calls(fn) {
+				if reach[rc.Block()] && releases(rc) {
+					return true
+				}
+			}
+		}
+		if v.Referrers() == nil {
+			return false
+		}
+		for _, r := range *v.Referrers() {
+			switch x := r.(type) {
+			case *ssa.If, *ssa.DebugRef:
+			case *ssa.UnOp:
+				if x.Op != token.NOT {
+					escapes = true
+				}
+			case *ssa.Phi:
+				if judge(x, depth, seen) {
+					return true
+				}
+			case *ssa.Store:
+				if _, ok := x.Addr.(*ssa.Alloc); ok && x.Val == v {
+					for _, ld := range an.LoadsReachedBy(x) {
+						if judge(ld, depth, seen) {
+							return true
+						}
+					}
+				} else {
+					escapes = true
+				}
+			case *ssa.Call:
+				g := x.Common().StaticCallee()
+				followed := false
+				if g != nil && w.InModule(g) && g.Blocks != nil && depth < 2 {
+					for k, a := range x.Common().Args {
+						if a == v && k < len(g.Params) {
+							followed = true
+							if judge(g.Params[k], depth+1, seen) {
+								return true
+							}
+						}
+					}
+				}
+				if !followed {
+					escapes = true
+				}
+			default:
+				escapes = true
+			}
+		}
+		return false
+	}
+	for _, dv := range an.ResultValues(call, 0) {
+		if judge(dv, 0, map[ssa.Value]bool{}) {
+			return 1
+		}
+	}
+	if escapes {
+		return 0
+	}
+	return -1
+}
+
+// c16ForwardsDone: fn returns the done result of call as its own first result.
+func c16ForwardsDone(fn *ssa.Function, call *ssa.Call) bool {
+	res := fn.Signature.Results()
+	if res.Len() == 0 {
+		return false
+	}
+	if b, ok := res.At(0).Type().Underlying().(*types.Basic); !ok || b.Kind() != types.Bool {
+		return false
+	}
+	for _, p := range c16ResultPoints(fn, 0) {
+		if ex, ok := p.Val.(*ssa.Extract); ok && ex.Tuple == ssa.Value(call) && ex.Index == 0 {
+			return true
+		}
+	}
+	return false
 }
 
 // c16DependsOnHeight: some return of event ev in the state's Execute functions
-// is control-dependent on a value derived from TxWatcher.GetBlockHeight's
-// height result (not merely on its error).
+// (or in an in-module callee whose result they return, with the callee's
+// parameters bound to the call's arguments) is control-dependent on a value
+// derived from TxWatcher.GetBlockHeight's height result (not merely on its
+// error).
 func c16DependsOnHeight(w *an.World, ss *an.StateSummary, ev string) bool {
 	for _, fn := range ss.Execs {
-		for _, r := range an.Returns(fn) {
-			hit := false
-			for _, res := range r.Results {
-				for _, e := range eventValues(w, res) {
-					if e == ev {
-						hit = true
+		if c16HeightDep(w, fn, ev, nil, 0, map[*ssa.Function]bool{}) {
+			return true
+		}
+	}
+	return false
+}
+
+// c16RetPoint is one (value, block) pair of a function result; a returned phi is
+// expanded into its incoming values at the predecessor blocks.
+type c16RetPoint struct {
+	Blk  *ssa.BasicBlock
+	Val  ssa.Value
+	Edge *an.Edge // for an expanded phi: the edge Blk -> return block
+}
+
+// facts that hold when the point is reached.
+func (p c16RetPoint) facts(w *an.World) []an.Fact {
+	fs := w.FactsDominatingBlock(p.Blk)
+	if p.Edge != nil {
+		for _, f := range w.Facts(p.Blk.Parent()) {
+			if f.Edge == *p.Edge {
+				fs = append(fs, f)
+			}
+		}
+	}
+	return fs
+}
+
+func c16ResultPoints(fn *ssa.Function, idx int) []c16RetPoint {
+	var out []c16RetPoint
+	for _, r := range an.Returns(fn) {
+		if idx >= len(r.Results) {
+			continue
+		}
+		v := r.Results[idx]
+		if phi, ok := v.(*ssa.Phi); ok && phi.Block() == r.Block() {
+			for i, e := range phi.Edges {
+				pred := r.Block().Preds[i]
+				pt := c16RetPoint{Blk: pred, Val: e}
+				for k, sc := range pred.Succs {
+					if sc == r.Block() {
+						pt.Edge = &an.Edge{From: pred, Idx: k}
 					}
+				}
+				out = append(out, pt)
+			}
+			continue
+		}
+		out = append(out, c16RetPoint{Blk: r.Block(), Val: v})
+	}
+	return out
+}
+
+func c16IsEventType(t types.Type) bool {
+	n, ok := t.(*types.Named)
+	return ok && n.Obj().Name() == "EventType"
+}
+
+// c16HeightDep: see c16DependsOnHeight; taint are the parameters of fn that hold
+// a height-derived value at the call under consideration.
+func c16HeightDep(w *an.World, fn *ssa.Function, ev string, taint map[*ssa.Parameter]bool, depth int, seen map[*ssa.Function]bool) bool {
+	if fn == nil || fn.Blocks == nil || seen[fn] {
+		return false
+	}
+	seen[fn] = true
+	defer delete(seen, fn)
+	isHeight := func(v ssa.Value) bool {
+		for _, l := range w.Sources(v, an.FlowOpts{}).Leaves {
+			if l.Kind == "call" && l.Name == fxBlockHeight+"#0" {
+				return true
+			}
+			if p, ok := l.Val.(*ssa.Parameter); ok && l.Kind == "param" && taint[p] {
+				return true
+			}
+		}
+		return false
+	}
+	// derived: the height itself, or the result of a call that takes it as argument
+	derives := func(v ssa.Value) bool {
+		if v == nil {
+			return false
+		}
+		if isHeight(v) {
+			return true
+		}
+		for _, l := range w.Sources(v, an.FlowOpts{}).Leaves {
+			if l.Kind == "call" && l.Call != nil {
+				for _, a := range l.Call.Common().Args {
+					if isHeight(a) {
+						return true
+					}
+				}
+			}
+		}
+		return false
+	}
+	res := fn.Signature.Results()
+	for i := 0; i < res.Len(); i++ {
+		if !c16IsEventType(res.At(i).Type()) {
+			continue
+		}
+		for _, p := range c16ResultPoints(fn, i) {
+			hit := false
+			for _, e := range eventValues(w, p.Val) {
+				if e == ev {
+					hit = true
 				}
 			}
 			if !hit {
 				continue
 			}
-			for _, f := range w.FactsDominatingBlock(r.Block()) {
+			for _, f := range p.facts(w) {
 				if strings.Contains(f.String(), fxBlockHeight+"#0") {
 					return true
 				}
-				// through an in-module helper that takes the height as argument
-				if cv, ok := f.Cond.(*ssa.BinOp); ok {
-					for _, op := range []ssa.Value{cv.X, cv.Y} {
-						src := w.Sources(op, an.FlowOpts{})
-						for _, l := range src.Leaves {
-							if l.Kind == "call" && l.Call != nil {
-								for _, a := range l.Call.Common().Args {
-									as := w.Sources(a, an.FlowOpts{})
-									if as.Has("call", fxBlockHeight+"#0") {
-										return true
-									}
-								}
-							}
+				ops := []ssa.Value{f.LV, f.RV}
+				ops = append(ops, f.Args...)
+				switch cv := f.Cond.(type) {
+				case *ssa.BinOp:
+					ops = append(ops, cv.X, cv.Y)
+				case *ssa.UnOp:
+					ops = append(ops, cv.X)
+				default:
+					ops = append(ops, f.Cond)
+				}
+				for _, op := range ops {
+					if derives(op) {
+						return true
+					}
+				}
+			}
+			// the event is the result of an in-module callee: look inside it with
+			// the height-carrying arguments bound to its parameters
+			if call, ok := p.Val.(*ssa.Call); ok && depth < 3 {
+				g := w.Info(call).Static
+				if g != nil && w.InModule(g) && g.Blocks != nil {
+					t2 := map[*ssa.Parameter]bool{}
+					for k, a := range call.Common().Args {
+						if k < len(g.Params) && isHeight(a) {
+							t2[g.Params[k]] = true
 						}
+					}
+					if c16HeightDep(w, g, ev, t2, depth+1, seen) {
+						return true
 					}
 				}
 			}
@@ -251,12 +554,12 @@ func c16DependsOnHeight(w *an.World, ss *an.StateSummary, ev string) bool {
 
 // c16RecoverHandlesNilAction: Recover has a path for an action-less current
 // state that ends in (true, nil) or sends an event, instead of only returning an
-// error.
-func c16RecoverHandlesNilAction(w *an.World) bool {
+// error: 1 yes, -1 every such path returns an error, 0 cannot interpret.
+func c16RecoverHandlesNilAction(w *an.World) int {
 	rec := w.Func("swap", "(*SwapStateMachine).Recover")
 	se := w.Func("swap", "(*SwapStateMachine).SendEvent")
 	if rec == nil {
-		return false
+		return 0
 	}
 	// Recover and the in-module helpers it calls synchronously (not SendEvent)
 	fns := []*ssa.Function{rec}
@@ -265,30 +568,101 @@ func c16RecoverHandlesNilAction(w *an.World) bool {
 			fns = append(fns, f)
 		}
 	}
+	// canSucceed: the trailing error value v (at the end of blk) can be nil:
+	// 1 yes, -1 no (a sentinel / freshly made error), 0 unknown
+	var canSucceed func(v ssa.Value, depth int) int
+	fnCanSucceed := func(g *ssa.Function, depth int) int {
+		res := g.Signature.Results()
+		if g.Blocks == nil || res.Len() == 0 || !an.IsErrorType(res.At(res.Len()-1).Type()) {
+			return 0
+		}
+		worst := -1
+		for _, p := range c16ResultPoints(g, res.Len()-1) {
+			switch canSucceed(p.Val, depth) {
+			case 1:
+				return 1
+			case 0:
+				worst = 0
+			}
+		}
+		return worst
+	}
+	canSucceed = func(v ssa.Value, depth int) int {
+		if an.IsNilConst(v) {
+			return 1
+		}
+		var call *ssa.Call
+		switch x := v.(type) {
+		case *ssa.MakeInterface:
+			return -1
+		case *ssa.UnOp:
+			if _, isGlobal := x.X.(*ssa.Global); isGlobal && x.Op == token.MUL {
+				return -1 // a package-level sentinel such as ErrFsmConfig
+			}
+			return 0
+		case *ssa.Phi:
+			worst := -1
+			for _, e := range x.Edges {
+				switch canSucceed(e, depth) {
+				case 1:
+					return 1
+				case 0:
+					worst = 0
+				}
+			}
+			return worst
+		case *ssa.Extract:
+			call, _ = x.Tuple.(*ssa.Call)
+		case *ssa.Call:
+			call = x
+		}
+		if call == nil {
+			return 0
+		}
+		ci := w.Info(call)
+		if ci.Name == "func:errors.New" || ci.Name == "func:fmt.Errorf" {
+			return -1
+		}
+		g := ci.Static
+		if g == nil {
+			return 0
+		}
+		if g == se {
+			return 1 // the result of SendEvent(...)
+		}
+		if w.InModule(g) && depth < 3 {
+			return fnCanSucceed(g, depth+1)
+		}
+		return 0
+	}
+	found, unknown := false, false
 	for _, fn := range fns {
 		for _, f := range w.Facts(fn) {
 			if !(f.NonNum && f.Rel == "==" && an.EqIs(f, "==", "State.Action", "nil")) &&
 				!(f.NonNum && f.Rel == "==" && an.EqIs(f, "==", "SwapStateMachine.Current", `""`)) {
 				continue
 			}
+			found = true
 			reach := an.ReachBlocks([]*ssa.BasicBlock{f.Edge.To()}, nil, nil)
-			for _, r := range an.Returns(fn) {
-				if !reach[r.Block()] || len(r.Results) < 2 {
+			res := fn.Signature.Results()
+			if res.Len() < 2 || !an.IsErrorType(res.At(res.Len()-1).Type()) {
+				continue
+			}
+			for _, p := range c16ResultPoints(fn, res.Len()-1) {
+				if !reach[p.Blk] {
 					continue
 				}
-				last := r.Results[len(r.Results)-1]
-				if !an.IsErrorType(last.Type()) {
-					continue
-				}
-				// a path that does not end in a non-nil error
-				if an.IsNilConst(last) {
-					return true
-				}
-				if _, isCall := last.(*ssa.Extract); isCall {
-					return true // result of SendEvent(...)
+				switch canSucceed(p.Val, 0) {
+				case 1:
+					return 1
+				case 0:
+					unknown = true
 				}
 			}
 		}
 	}
-	return false
+	if !found || unknown {
+		return 0
+	}
+	return -1
 }
